@@ -16,7 +16,7 @@ class AnalysisError(Exception):
 
 
 class Finding:
-    def __init__(self, prop, rule, construct, key, why, relpath, line):
+    def __init__(self, prop, rule, construct, key, why, relpath, line, sig=None):
         self.prop = prop
         self.rule = rule
         self.construct = construct
@@ -24,14 +24,21 @@ class Finding:
         self.why = why
         self.relpath = relpath
         self.line = line
+        # what exactly is wrong, in a form that does not depend on positions (a deviation class, "x became y"): a
+        # known finding that names a signature only covers findings with that signature, so that another defect at the
+        # same instance is not hidden behind it
+        self.sig = sig
 
     def ident(self):
         return (self.prop, self.rule, self.construct, self.key)
 
     def as_dict(self):
-        return {'property': self.prop, 'rule': self.rule,
-                'construct': self.construct, 'key': self.key,
-                'why': self.why, 'file': self.relpath, 'line': self.line}
+        d = {'property': self.prop, 'rule': self.rule,
+             'construct': self.construct, 'key': self.key,
+             'why': self.why, 'file': self.relpath, 'line': self.line}
+        if self.sig is not None:
+            d['sig'] = self.sig
+        return d
 
 
 def _visited():
@@ -82,23 +89,23 @@ class Run:
             self.samples.append({'rule': rule, 'construct': construct,
                                  'obligation': sample, 'holds': True})
 
-    def fail(self, rule, construct, key, why, module=None, node=None):
+    def fail(self, rule, construct, key, why, module=None, node=None, sig=None):
         self._count(rule, False)
         rel, line = self._loc(module, node)
         if not isinstance(key, str):
             key = norm(key)
-        f = Finding(self.prop, rule, construct, key, why, rel, line)
-        # one finding per identity
-        if f.ident() not in [g.ident() for g in self.findings]:
+        f = Finding(self.prop, rule, construct, key, why, rel, line, sig)
+        # one finding per identity and signature
+        if (f.ident(), f.sig) not in [(g.ident(), g.sig) for g in self.findings]:
             self.findings.append(f)
         return f
 
     def check(self, cond, rule, construct, key, why, module=None, node=None,
-              sample=None):
+              sample=None, sig=None):
         if cond:
             self.ok(rule, construct, sample)
         else:
-            self.fail(rule, construct, key, why, module, node)
+            self.fail(rule, construct, key, why, module, node, sig=sig() if callable(sig) else sig)
         return bool(cond)
 
     def note(self, text, module=None, node=None):
@@ -138,16 +145,19 @@ class Run:
 
     def finish(self, replay=None, quiet=False):
         known = [e for e in self.load_known() if e.get('status') == 'known']
-        kset = {(e['property'], e['rule'], e['construct'], e['key']): e for e in known}
+        kset = {}
+        for e in known:
+            kset.setdefault((e['property'], e['rule'], e['construct'], e['key']), []).append(e)
         viol, kn = [], []
         for f in self.findings:
-            if f.ident() in kset:
+            es = kset.get(f.ident(), [])
+            if any('sig' not in e or e['sig'] == f.sig for e in es):
                 kn.append(f)
             else:
                 viol.append(f)
         if replay is not None:
             want = (replay['property'], replay['rule'], replay['construct'], replay['key'])
-            viol = [f for f in viol if f.ident() == want]
+            viol = [f for f in viol if f.ident() == want and replay.get('sig', f.sig) == f.sig]
             kn = []
         out = []
         os.makedirs(EVID_DIR, exist_ok=True)
